@@ -37,6 +37,7 @@ type scenario struct {
 	HostIPs []string   `json:"hostIPs"`
 	Workers [][]bindOp `json:"workers"`
 	Sweep   bool       `json:"sweep"` // exhaust the ephemeral range first
+	NearFull int       `json:"nearFull"` // leave only this many ephemeral ports free before the workers start (0 = off)
 }
 
 func gen(r *harn.Rng, tier string) interface{} {
@@ -86,9 +87,20 @@ func gen(r *harn.Rng, tier string) interface{} {
 		sc.Sweep = true
 		nw = 1
 	}
+	if !sc.Sweep && r.Bool(0.03) {
+		sc.NearFull = r.Pick(2, 3, 4, 6)
+		nw = r.Pick(2, 3)
+	}
 	ips := append([]string{"", "0.0.0.0", "127.0.0.1", "10.0.0.99"}, sc.HostIPs...)
 	for w := 0; w < nw; w++ {
 		var ops []bindOp
+		if sc.NearFull > 0 {
+			for i, n := 0, r.Range(1, 3); i < n; i++ {
+				ops = append(ops, bindOp{K: "listenudp", Port: 0}.fix(sc.HostIPs, r.Intn(3)))
+			}
+			sc.Workers = append(sc.Workers, ops)
+			continue
+		}
 		if r.Bool(0.25) {
 			// bind, close, re-bind the same address, close the stale handle again, bind once more, probe
 			ip := append([]string{"", "127.0.0.1"}, sc.HostIPs...)[r.Intn(2+len(sc.HostIPs))]
@@ -132,6 +144,19 @@ func gen(r *harn.Rng, tier string) interface{} {
 		sc.Workers = append(sc.Workers, ops)
 	}
 	return sc
+}
+
+// fix chooses the address of a port-0 bind: wildcard, first host address or loopback.
+func (b bindOp) fix(hostIPs []string, k int) bindOp {
+	switch k {
+	case 0:
+		b.IP = ""
+	case 1:
+		b.IP = hostIPs[0]
+	default:
+		b.IP = "127.0.0.1"
+	}
+	return b
 }
 
 func quietLF() *logging.DefaultLoggerFactory {
@@ -261,8 +286,9 @@ type bindOut struct {
 }
 
 type bindHistory struct {
-	ops     []porcupine.Operation
-	hostIPs []string
+	ops       []porcupine.Operation
+	hostIPs   []string
+	prefilled []string // sockets opened before the concurrent phase
 }
 
 func runBind(env *simrt.Env, sc *scenario) {
@@ -345,6 +371,22 @@ func runBind(env *simrt.Env, sc *scenario) {
 		allSocks = nil
 	}
 
+	var prefilled []string
+	if sc.NearFull > 0 {
+		// occupy all but a few ephemeral ports on the wildcard address, then let the workers bind port 0 concurrently
+		for i := 0; i < 1000-sc.NearFull; i++ {
+			c, err := host.ListenUDP("udp", &net.UDPAddr{IP: net.IPv4zero, Port: 0})
+			if err != nil {
+				env.Fail("C13/bind-refused", "port 0 bind #%d failed (%v) although %d ports of 5000-5999 are free", i+1, err, 1000-i)
+				return
+			}
+			la := c.LocalAddr().(*net.UDPAddr)
+			allSocks = append(allSocks, &sock{ip: "*", port: la.Port, conn: c})
+			prefilled = append(prefilled, fmt.Sprintf("*|%d", la.Port))
+		}
+		env.Probe("near-full-range")
+	}
+	h.prefilled = prefilled
 	// sequential model (used directly when there is one worker)
 	open := map[string]*sock{} // key ip|port
 	key := func(ip string, port int) string { return fmt.Sprintf("%s|%d", ip, port) }
@@ -644,7 +686,11 @@ func post(sci interface{}, res *simrt.Result) *simrt.Violation {
 		return nil
 	}
 	model := porcupine.Model{
-		Init: func() interface{} { return "" },
+		Init: func() interface{} {
+			ks := append([]string(nil), h.prefilled...)
+			sort.Strings(ks)
+			return strings.Join(ks, ";")
+		},
 		Step: func(st, input, output interface{}) (bool, interface{}) {
 			s := st.(string) // sorted "ip|port;" entries
 			in := input.(bindIn)
